@@ -17,6 +17,7 @@ from ..install import ctx as _ctx
 from ..bootstrap import smod
 
 NEEDS_NATIVE = True
+REPO_TESTS_UNDER_CONTRACTS = True
 RULE = ('behaviour cases = (N, NW, k) with N in 8..64 exhaustive x NW in {1,1.5,..,8} and non-half-integers x '
         'k in {1, floor(2NW), default}, sampled N up to 1024 (quick) / 4096 (thorough); memory cases = batches of '
         '(N, k, NW) triples incl. hostile ones (k = N, k > 2NW, NW near N/2, repeated calls); non-trivial when '
